@@ -722,5 +722,468 @@ theorem weak_iteration_fwd {p0 : PMap} (hp : PInv p0) (fuel : Nat) (script : Lis
   show (vis.map (·.2.1)).filter T = (AMap.keys p0.dict).filter T
   rw [h1, h2, hidfilter, h3]
 
+/-! ## the reverse direction (`ForEachReverse` follows `prev`) -/
+
+def prevAt (h : List Node) (n : Nat) : Option (Option Nat) := (h[n]?).map (·.prev)
+
+theorem prevAt_setNext (h : List Node) (a n : Nat) (nx : Option Nat) : prevAt (setNext h a nx) n = prevAt h n := by
+  unfold prevAt; rw [get_setNext]; by_cases e : a = n <;> cases h[n]? <;> simp [e]
+
+theorem prevAt_setPrev (h : List Node) (b n : Nat) (pv : Option Nat) :
+    prevAt (setPrev h b pv) n = if b = n then (h[n]?).map (fun _ => pv) else prevAt h n := by
+  unfold prevAt; rw [get_setPrev]; by_cases e : b = n <;> cases h[n]? <;> simp [e]
+
+theorem prevAt_setVal (h : List Node) (i n v : Nat) : prevAt (setVal h i v) n = prevAt h n := by
+  unfold prevAt; rw [get_setVal]; by_cases e : i = n <;> cases h[n]? <;> simp [e]
+
+theorem exists_setNext (h : List Node) (a n : Nat) (nx pv : Option Nat) :
+    ((setNext h a nx)[n]?).map (fun _ => pv) = (h[n]?).map (fun _ => pv) := by
+  rw [get_setNext]; by_cases e : a = n <;> cases h[n]? <;> simp [e]
+
+theorem prevAt_unlink (h : List Node) (pv nx : Option Nat) (n : Nat) :
+    prevAt (unlink h pv nx) n = if nx = some n then (h[n]?).map (fun _ => pv) else prevAt h n := by
+  unfold unlink
+  cases nx with
+  | none => cases pv <;> simp [prevAt_setNext]
+  | some b =>
+    cases pv with
+    | none => simp [prevAt_setPrev]
+    | some a => simp [prevAt_setPrev, prevAt_setNext, exists_setNext]
+
+theorem prevAt_append (h : List Node) (x : Node) (n : Nat) :
+    prevAt (h ++ [x]) n = if n < h.length then prevAt h n else if n = h.length then some x.prev else none := by
+  unfold prevAt
+  by_cases h1 : n < h.length
+  · simp [h1, List.getElem?_append_left h1]
+  · by_cases h2 : n = h.length
+    · subst h2; simp [get_append_new]
+    · have : (h ++ [x]).length ≤ n := by simp; omega
+      simp [h1, h2, List.getElem?_eq_none this]
+
+theorem prevAt_lt {h : List Node} {n : Nat} {x : Option Nat} (hx : prevAt h n = some x) : n < h.length := by
+  unfold prevAt at hx
+  rcases Nat.lt_or_ge n h.length with hl | hl
+  · exact hl
+  · rw [List.getElem?_eq_none hl] at hx; cases hx
+
+theorem prevAt_some_of_lt {h : List Node} {n : Nat} (hl : n < h.length) : ∃ x, prevAt h n = some x := by
+  unfold prevAt; rw [List.getElem?_eq_getElem hl]; exact ⟨_, rfl⟩
+
+/-- the `prev` of an element of a sorted chain is the last element before it -/
+theorem seg_prevAt_split {h : List Node} {pre post : List Nat} {n : Nat} {nx : Option Nat}
+    (hs : Seg h none (pre ++ n :: post) nx) : prevAt h n = some pre.getLast? := by
+  rw [seg_append] at hs
+  obtain ⟨_, ⟨nd, hnd, hpv, _⟩, _⟩ := hs
+  simp [prevAt, hnd, hpv]
+
+theorem seg_prevAt_mem {h : List Node} {l : List Nat} {nx : Option Nat} (hs : Seg h none l nx)
+    (hsort : l.Pairwise (· < ·)) {n m : Nat} (hn : n ∈ l) (hm : prevAt h n = some (some m)) : m < n ∧ m ∈ l := by
+  obtain ⟨pre, post, rfl⟩ := List.append_of_mem hn
+  rw [seg_prevAt_split hs] at hm
+  have hl : pre.getLast? = some m := by simpa using hm
+  have hmem : m ∈ pre := List.mem_of_getLast? hl
+  exact ⟨(List.pairwise_append.1 hsort).2.2 m hmem n (by simp), List.mem_append_left _ hmem⟩
+
+theorem seg_prevAt_le {h : List Node} {l : List Nat} {nx : Option Nat} (hs : Seg h none l nx)
+    (hsort : l.Pairwise (· < ·)) {n t : Nat} (hn : n ∈ l) (ht : t ∈ l) (hlt : t < n) :
+    ∃ m, prevAt h n = some (some m) ∧ t ≤ m := by
+  obtain ⟨pre, post, rfl⟩ := List.append_of_mem hn
+  have hsplit := List.pairwise_append.1 hsort
+  have htpre : t ∈ pre := by
+    rcases List.mem_append.1 ht with h1 | h1
+    · exact h1
+    · rcases List.mem_cons.1 h1 with e | e
+      · omega
+      · have := (List.pairwise_cons.1 hsplit.2.1).1 t e; omega
+  cases hl : pre.getLast? with
+  | none => rw [List.getLast?_eq_none_iff.1 hl] at htpre; cases htpre
+  | some m =>
+    exact ⟨m, by rw [seg_prevAt_split hs, hl], le_getLast_of_sorted hsplit.1 hl htpre⟩
+
+/-- the `prev` of the first element of a segment -/
+theorem seg_first_prevAt {h : List Node} {l : List Nat} {pv nx : Option Nat} (hs : Seg h pv l nx) {n : Nat}
+    (hl : l.head? = some n) : prevAt h n = some pv := by
+  obtain ⟨r, rfl⟩ := List.head?_eq_some_iff.1 hl
+  obtain ⟨⟨nd, hnd, hpv, _⟩, _⟩ := hs
+  simp [prevAt, hnd, hpv]
+
+/-- the backward counterpart of `WInv` -/
+structure WInvR (p0 : PMap) (T : Nat → Bool) (p : PMap) : Prop where
+  base : WInv p0 T p
+  decr : ∀ n m, Active0 p0 n → prevAt p.heap n = some (some m) → m < n ∧ Active0 p0 m
+  reachR : ∀ n, Active0 p0 n → n < p.heap.length → ∀ e ∈ p0.dict, T e.1 = true → e.2 < n →
+    ∃ m, prevAt p.heap n = some (some m) ∧ e.2 ≤ m
+
+theorem winvR_init {p0 : PMap} (T : Nat → Bool) (hp : PInv p0) : WInvR p0 T p0 := by
+  have hact : ∀ n, Active0 p0 n → n < p0.heap.length → n ∈ ids p0 := by
+    intro n hn hlt; rcases hn with h | h
+    · exact h
+    · omega
+  refine ⟨winv_init T hp, ?_, ?_⟩
+  · intro n m hn hm
+    obtain ⟨h1, h2⟩ := seg_prevAt_mem hp.linked hp.sorted (hact n hn (prevAt_lt hm)) hm
+    exact ⟨h1, Or.inl h2⟩
+  · intro n hn hlt e he _ hne
+    exact seg_prevAt_le hp.linked hp.sorted (hact n hn hlt) (mem_ids_of_mem he) hne
+
+theorem winvR_set {p0 p : PMap} {T : Nat → Bool} (hdom : ∀ k, T k = true → k ∈ AMap.keys p0.dict)
+    (w : WInvR p0 T p) (k v : Nat) : WInvR p0 T (p.set k v).1 := by
+  have hbase := winv_set hdom w.base k v
+  refine ⟨hbase, ?_, ?_⟩
+  all_goals
+    cases hget : AMap.get p.dict k with
+    | some i =>
+      rw [set_existing v hget]
+      first
+        | (intro n m hn hm
+           exact w.decr n m hn (by simpa [prevAt_setVal] using hm))
+        | (intro n hn hlt e he hT hne
+           have := w.reachR n hn (by simpa [length_setVal] using hlt) e he hT hne
+           simpa [prevAt_setVal] using this)
+    | none =>
+      cases hh : p.head with
+      | none =>
+        have hids : ids p = [] := by
+          have := w.base.inv.head; rw [hh] at this
+          exact List.head?_eq_none_iff.1 this.symm
+        have hd : p.dict = [] := by simpa [ids] using hids
+        rw [set_new_empty v hget hh]
+        first
+          | (intro n m hn hm
+             show m < n ∧ _
+             rw [prevAt_append] at hm
+             by_cases h1 : n < p.heap.length
+             · simp only [h1, if_true] at hm; exact w.decr n m hn hm
+             · by_cases h2 : n = p.heap.length <;> simp [h1, h2] at hm)
+          | (intro n hn hlt e he hT hne
+             have := w.base.keep e he hT
+             rw [hd] at this; cases this)
+      | some hd =>
+        have hne : ids p ≠ [] := by
+          intro e; have := w.base.inv.head; rw [hh, e] at this; cases this
+        obtain ⟨t, ht⟩ : ∃ t, (ids p).getLast? = some t := by
+          cases hl : (ids p).getLast? with
+          | none => exact absurd (List.getLast?_eq_none_iff.1 hl) hne
+          | some t => exact ⟨t, rfl⟩
+        have htail : p.tail = some t := by rw [w.base.inv.tail, ht]
+        have htmem : t ∈ ids p := List.mem_of_getLast? ht
+        have htlt : t < p.heap.length := w.base.inv.bound t htmem
+        have hlen : (setNext p.heap t (some p.heap.length)).length = p.heap.length := length_setNext _ _ _
+        rw [set_new_tail v hget hh htail]
+        first
+          | (intro n m hn hm
+             show m < n ∧ _
+             rw [prevAt_append, hlen] at hm
+             by_cases h1 : n < p.heap.length
+             · simp only [h1, if_true, prevAt_setNext] at hm; exact w.decr n m hn hm
+             · by_cases h2 : n = p.heap.length
+               · subst h2
+                 simp at hm; subst hm
+                 exact ⟨htlt, w.base.act _ htmem⟩
+               · simp [h1, h2] at hm)
+          | (intro n hn hlt e he hT hne'
+             show ∃ m, prevAt (setNext p.heap t (some p.heap.length) ++ [_]) n = _ ∧ _
+             have hlt' : n < p.heap.length + 1 := by
+               have := hlt
+               simp [hlen] at this
+               exact this
+             rw [prevAt_append, hlen]
+             by_cases h1 : n < p.heap.length
+             · simp only [h1, if_true, prevAt_setNext]
+               exact w.reachR n hn h1 e he hT hne'
+             · have h2 : n = p.heap.length := by omega
+               simp only [h1, h2, if_false, if_true]
+               have hmem := mem_ids_of_mem (w.base.keep e he hT)
+               exact ⟨t, by simp, le_getLast_of_sorted w.base.inv.sorted ht hmem⟩)
+
+theorem winvR_clear {p0 p : PMap} {T : Nat → Bool} (hT : ∀ k, T k = false) (w : WInvR p0 T p) : WInvR p0 T p.clear := by
+  refine ⟨winv_clear hT w.base, w.decr, ?_⟩
+  intro n _ _ e _ h; rw [hT] at h; cases h
+
+theorem winvR_delete {p0 p : PMap} {T : Nat → Bool} (w : WInvR p0 T p) (k : Nat) (hk : T k = false) :
+    WInvR p0 T (p.delete k).1 := by
+  have hbase := winv_delete w.base k hk
+  cases hget : AMap.get p.dict k with
+  | none => rw [delete_absent hget]; exact w
+  | some i =>
+    have hmem := dict_get_mem hget
+    have himem : i ∈ ids p := mem_ids_of_mem hmem
+    obtain ⟨nd, hnd⟩ := heap_some w.base.inv himem
+    obtain ⟨hheap, hdict⟩ := delete_found hget hnd
+    obtain ⟨d1, d2, hd⟩ := List.append_of_mem hmem
+    have hids : ids p = d1.map (·.2) ++ i :: d2.map (·.2) := by simp [ids, hd]
+    have hlinked := w.base.inv.linked
+    rw [hids, seg_append] at hlinked
+    obtain ⟨hA, ⟨nd', hnd', hpv, hnx⟩, hB⟩ := hlinked
+    rw [hnd] at hnd'; cases hnd'
+    simp only [List.head?_cons, Option.some_or, Option.or_none] at hA hpv hnx
+    have hsorted := w.base.inv.sorted
+    rw [hids] at hsorted
+    have hprev_i : prevAt p.heap i = some nd.prev := by simp [prevAt, hnd]
+    -- the successor's old `prev` is `i`, and it is larger than `i`
+    have hsucc : ∀ b, nd.next = some b → prevAt p.heap b = some (some i) ∧ i < b := by
+      intro b hb
+      rw [hnx] at hb
+      refine ⟨seg_first_prevAt hB hb, ?_⟩
+      have hbmem : b ∈ d2.map (·.2) := List.mem_of_head? hb
+      exact (List.pairwise_cons.1 (List.pairwise_append.1 hsorted).2.1).1 b hbmem
+    have hprevAt' : ∀ n, prevAt (p.delete k).1.heap n =
+        if nd.next = some n then (p.heap[n]?).map (fun _ => nd.prev) else prevAt p.heap n := by
+      intro n; rw [hheap, prevAt_unlink]
+    have hlen' : (p.delete k).1.heap.length = p.heap.length := by rw [hheap, length_unlink]
+    refine ⟨hbase, ?_, ?_⟩
+    · intro n m hn hm
+      rw [hprevAt'] at hm
+      by_cases hpn : nd.next = some n
+      · simp only [hpn, if_true] at hm
+        obtain ⟨h1, h2⟩ := hsucc n hpn
+        have hm' : nd.prev = some m := by
+          obtain ⟨x, hx⟩ := prevAt_some_of_lt (prevAt_lt h1)
+          unfold prevAt at hx
+          cases hq : p.heap[n]? with
+          | none => rw [hq] at hx; cases hx
+          | some q => simpa [hq] using hm
+        obtain ⟨a, c⟩ := w.decr i m (w.base.act i himem) (by rw [hprev_i, hm'])
+        exact ⟨by omega, c⟩
+      · simp only [hpn, if_false] at hm
+        exact w.decr n m hn hm
+    · intro n hn hlt e he hT hne
+      rw [hlen'] at hlt
+      rw [hprevAt']
+      obtain ⟨m, hm, hmle⟩ := w.reachR n hn hlt e he hT hne
+      by_cases hpn : nd.next = some n
+      · simp only [hpn, if_true]
+        obtain ⟨h1, _⟩ := hsucc n hpn
+        rw [h1] at hm
+        have hmi : m = i := by simpa using hm.symm
+        subst hmi
+        have hne2 : e.2 ≠ m := by
+          intro heq
+          have hem : e ∈ p.dict := w.base.keep e he hT
+          have : e = (k, m) := inj_of_nodup_map (·.2) (show (p.dict.map (·.2)).Nodup from w.base.inv.nodupIds) hem hmem heq
+          rw [this] at hT
+          rw [hk] at hT; cases hT
+        have hlt2 : e.2 < m := by omega
+        obtain ⟨m', hm', hmle'⟩ := w.reachR m (w.base.act m himem) (w.base.inv.bound m himem) e he hT hlt2
+        rw [hprev_i] at hm'
+        have hq : ∃ q, p.heap[n]? = some q := ⟨p.heap[n], List.getElem?_eq_getElem hlt⟩
+        obtain ⟨q, hq⟩ := hq
+        refine ⟨m', ?_, hmle'⟩
+        simp only [hq, Option.map_some]
+        simpa using hm'
+      · simp only [hpn, if_false]
+        exact ⟨m, hm, hmle⟩
+
+theorem winvR_applyOp {p0 p : PMap} {T : Nat → Bool} (hdom : ∀ k, T k = true → k ∈ AMap.keys p0.dict)
+    (w : WInvR p0 T p) (op : MOp) (hop : opOk T op) : WInvR p0 T (applyOp p op) := by
+  cases op with
+  | set k v => exact winvR_set hdom w k v
+  | del k => exact winvR_delete w k hop
+  | clear => exact winvR_clear hop w
+
+theorem winvR_applyOps {p0 p : PMap} {T : Nat → Bool} (hdom : ∀ k, T k = true → k ∈ AMap.keys p0.dict)
+    (w : WInvR p0 T p) (ops : List MOp) (hops : ∀ op ∈ ops, opOk T op) : WInvR p0 T (applyOps p ops) := by
+  induction ops generalizing p with
+  | nil => exact w
+  | cons op r ih =>
+    simp only [applyOps, List.foldl_cons]
+    exact ih (winvR_applyOp hdom w op (hops op (by simp))) (fun o ho => hops o (List.mem_cons_of_mem _ ho))
+
+theorem stepCursor_of_prevAt {p : PMap} {i : Nat} {x : Option Nat} (h : prevAt p.heap i = some x) :
+    stepCursor p false i = x := by
+  unfold prevAt at h
+  unfold stepCursor
+  cases hq : p.heap[i]? with
+  | none => rw [hq] at h; cases h
+  | some q => rw [hq] at h; simpa using h
+
+theorem weakWalk_none_rev (fuel : Nat) (p : PMap) (script : List (List MOp × Bool)) :
+    (weakWalk false fuel p none script).2.1 = [] := by
+  cases fuel <;> rfl
+
+theorem weakWalk_rev {p0 : PMap} {T : Nat → Bool} (hdom : ∀ k, T k = true → k ∈ AMap.keys p0.dict)
+    (fuel : Nat) (p : PMap) (c : Option Nat) (script : List (List MOp × Bool)) (w : WInvR p0 T p)
+    (hscript : ∀ e ∈ script, ∀ op ∈ e.1, opOk T op)
+    (hc : ∀ i, c = some i → Active0 p0 i ∧ i < p.heap.length)
+    (hdone : (weakWalk false fuel p c script).2.2 = true) :
+    ((weakWalk false fuel p c script).2.1.map (·.1)).Pairwise (· > ·) ∧
+    (∀ i, c = some i → ∀ j ∈ (weakWalk false fuel p c script).2.1.map (·.1), j ≤ i) ∧
+    (∀ e ∈ p0.dict, T e.1 = true → (∃ i, c = some i ∧ e.2 ≤ i) → e.2 ∈ (weakWalk false fuel p c script).2.1.map (·.1)) ∧
+    (∀ x ∈ (weakWalk false fuel p c script).2.1, Active0 p0 x.1 ∧
+      (x.1 < p0.heap.length → x.2.1 = keyOf p0.heap x.1) ∧ (p0.heap.length ≤ x.1 → T x.2.1 = false)) := by
+  induction fuel generalizing p c script with
+  | zero => simp [weakWalk] at hdone
+  | succ f ih =>
+    cases c with
+    | none =>
+      have hv : (weakWalk false (f + 1) p none script).2.1 = [] := rfl
+      rw [hv]
+      refine ⟨List.Pairwise.nil, ?_, ?_, ?_⟩
+      · intro i h; cases h
+      · rintro e _ _ ⟨i, h, _⟩; cases h
+      · intro x hx; cases hx
+    | some i =>
+      obtain ⟨hact, hlt⟩ := hc i rfl
+      have hnd : p.heap[i]? = some p.heap[i] := List.getElem?_eq_getElem hlt
+      have hops : ∀ op ∈ (script.headD ([], false)).1, opOk T op := by
+        cases script with
+        | nil => intro op hop; simp at hop
+        | cons e r => intro op hop; exact hscript e (by simp) op hop
+      have hscript' : ∀ e ∈ script.tail, ∀ op ∈ e.1, opOk T op :=
+        fun e he => hscript e (List.mem_of_mem_tail he)
+      have w' := winvR_applyOps hdom w _ hops
+      have hlt' : i < (applyOps p (script.headD ([], false)).1).heap.length :=
+        Nat.lt_of_lt_of_le hlt (heap_len_applyOps _ _)
+      obtain ⟨x, hx⟩ := prevAt_some_of_lt hlt'
+      have hcur := stepCursor_of_prevAt hx
+      have hunf : weakWalk false (f + 1) p (some i) script =
+          if (script.headD ([], false)).2 then
+            (applyOps p (script.headD ([], false)).1, [(i, (p.heap[i].key, p.heap[i].val))], false)
+          else
+            ((weakWalk false f (applyOps p (script.headD ([], false)).1) x script.tail).1,
+             (i, (p.heap[i].key, p.heap[i].val)) :: (weakWalk false f (applyOps p (script.headD ([], false)).1) x script.tail).2.1,
+             (weakWalk false f (applyOps p (script.headD ([], false)).1) x script.tail).2.2) := by
+        simp only [weakWalk, hnd, hcur]
+      rw [hunf] at hdone ⊢
+      by_cases hstop : (script.headD ([], false)).2 = true
+      · rw [if_pos hstop] at hdone; cases hdone
+      · rw [if_neg hstop] at hdone ⊢
+        have hc' : ∀ m, x = some m → Active0 p0 m ∧ m < (applyOps p (script.headD ([], false)).1).heap.length := by
+          intro m hm; subst hm
+          obtain ⟨b, c⟩ := w'.decr i m hact hx
+          exact ⟨c, by omega⟩
+        obtain ⟨ha, hb, hcov, hkeys⟩ := ih _ x script.tail w' hscript' hc' hdone
+        have hgt : ∀ j ∈ (weakWalk false f (applyOps p (script.headD ([], false)).1) x script.tail).2.1.map (·.1), j < i := by
+          intro j hj
+          cases x with
+          | none => rw [weakWalk_none_rev] at hj; cases hj
+          | some m =>
+            have := hb m rfl j hj
+            have := (w'.decr i m hact hx).1
+            omega
+        refine ⟨?_, ?_, ?_, ?_⟩
+        · simp only [List.map_cons, List.pairwise_cons]
+          exact ⟨fun j hj => hgt j hj, ha⟩
+        · intro i' hi' j hj
+          cases hi'
+          simp only [List.map_cons, List.mem_cons] at hj
+          rcases hj with hj | hj
+          · omega
+          · have := hgt j hj; omega
+        · rintro e he hT ⟨i', hi', hle⟩
+          cases hi'
+          simp only [List.map_cons, List.mem_cons]
+          by_cases heq : e.2 = i
+          · exact Or.inl heq
+          · right
+            have hlt2 : e.2 < i := by omega
+            obtain ⟨m, hm, hmle⟩ := w'.reachR i hact hlt' e he hT hlt2
+            rw [hx] at hm
+            have : x = some m := by simpa using hm
+            exact hcov e he hT ⟨m, this, hmle⟩
+        · intro y hy
+          simp only [List.mem_cons] at hy
+          rcases hy with hy | hy
+          · subst hy
+            have hk : p.heap[i].key = keyOf p.heap i := by simp [keyOf, hnd]
+            refine ⟨hact, ?_, ?_⟩
+            · intro h0; show p.heap[i].key = _; rw [hk]; exact w.base.keys i h0
+            · intro h0; show T p.heap[i].key = false; rw [hk]; exact w.base.fresh i h0 hlt
+          · exact hkeys y hy
+
+/-- `ForEachReverse`: the same with `prev` pointers, the keys live throughout come in reverse insertion order. -/
+theorem weak_iteration_rev {p0 : PMap} (hp : PInv p0) (fuel : Nat) (script : List (List MOp × Bool))
+    (hdone : (weakWalk false fuel p0 p0.tail script).2.2 = true) :
+    ((weakWalk false fuel p0 p0.tail script).2.1.map (·.2.1)).filter (liveThrough p0 script)
+      = (AMap.keys p0.dict).reverse.filter (liveThrough p0 script) := by
+  let T := liveThrough p0 script
+  have hdom : ∀ k, T k = true → k ∈ AMap.keys p0.dict := by
+    intro k hk
+    simp only [T, liveThrough, Bool.and_eq_true, decide_eq_true_eq] at hk
+    exact hk.1
+  have hc : ∀ i, p0.tail = some i → Active0 p0 i ∧ i < p0.heap.length := by
+    intro i hi
+    have : i ∈ ids p0 := List.mem_of_getLast? (hp.tail ▸ hi)
+    exact ⟨Or.inl this, hp.bound i this⟩
+  obtain ⟨ha, _, hcov, hkeys⟩ := weakWalk_rev hdom fuel p0 p0.tail script (winvR_init T hp)
+    (liveThrough_opOk p0 script) hc hdone
+  generalize (weakWalk false fuel p0 p0.tail script).2.1 = vis at ha hcov hkeys
+  -- identities of the elements whose keys stay live
+  let Tids := (p0.dict.filter (fun e => T e.1)).map (·.2)
+  have hTsorted : Tids.Pairwise (· < ·) :=
+    hp.sorted.sublist (List.Sublist.map _ List.filter_sublist)
+  have hTmem : ∀ j, j ∈ Tids ↔ ∃ e ∈ p0.dict, T e.1 = true ∧ e.2 = j := by
+    intro j; simp only [Tids, List.mem_map, List.mem_filter]
+    constructor
+    · rintro ⟨e, ⟨h1, h2⟩, h3⟩; exact ⟨e, h1, h2, h3⟩
+    · rintro ⟨e, h1, h2, h3⟩; exact ⟨e, ⟨h1, h2⟩, h3⟩
+  -- every such element is visited
+  have hall : ∀ j ∈ Tids, j ∈ vis.map (·.1) := by
+    intro j hj
+    obtain ⟨e, he, hT, rfl⟩ := (hTmem j).1 hj
+    have hmem := mem_ids_of_mem he
+    cases hh : p0.tail with
+    | none =>
+      have : ids p0 = [] := List.getLast?_eq_none_iff.1 (hp.tail ▸ hh)
+      rw [this] at hmem; cases hmem
+    | some a =>
+      apply hcov e he hT
+      exact ⟨a, hh, le_getLast_of_sorted hp.sorted (hp.tail ▸ hh) hmem⟩
+  have hidfilter : (vis.map (·.1)).filter (fun j => decide (j ∈ Tids)) = Tids.reverse := by
+    have hdec : ((vis.map (·.1)).filter (fun j => decide (j ∈ Tids))).reverse.Pairwise (· < ·) := by
+      rw [List.pairwise_reverse]
+      exact (ha.sublist List.filter_sublist).imp (fun h => h)
+    have := sorted_ext hdec hTsorted (by
+      intro x
+      simp only [List.mem_reverse, List.mem_filter, decide_eq_true_eq]
+      exact ⟨fun h => h.2, fun h => ⟨hall x h, h⟩⟩)
+    have h2 := congrArg List.reverse this
+    rw [List.reverse_reverse] at h2
+    exact h2
+  -- a visited element reports a key that stays live iff it is one of these elements
+  have hiff : ∀ x ∈ vis, T x.2.1 = decide (x.1 ∈ Tids) := by
+    intro x hx
+    obtain ⟨hact, hk1, hk2⟩ := hkeys x hx
+    by_cases hin : x.1 ∈ Tids
+    · obtain ⟨e, he, hT, hej⟩ := (hTmem x.1).1 hin
+      have hlt : x.1 < p0.heap.length := hej ▸ hp.bound e.2 (mem_ids_of_mem he)
+      rw [hk1 hlt, ← hej, hp.keyOk e he, hT]; simp [hej, hin]
+    · simp only [hin, decide_false]
+      rcases Nat.lt_or_ge x.1 p0.heap.length with hlt | hge
+      · have hx0 : x.1 ∈ ids p0 := by
+          rcases hact with h | h
+          · exact h
+          · omega
+        obtain ⟨e, he, hej⟩ := List.mem_map.1 hx0
+        rw [hk1 hlt, ← hej, hp.keyOk e he]
+        cases hT : T e.1 with
+        | false => rfl
+        | true => exact absurd ((hTmem x.1).2 ⟨e, he, hT, hej⟩) hin
+      · exact hk2 hge
+  -- assemble
+  have h1 : (vis.map (·.2.1)).filter T = (vis.filter (fun x => decide (x.1 ∈ Tids))).map (·.2.1) := by
+    rw [List.filter_map]
+    congr 1
+    apply List.filter_congr
+    intro x hx; exact hiff x hx
+  have h2 : (vis.filter (fun x => decide (x.1 ∈ Tids))).map (·.2.1)
+      = ((vis.map (·.1)).filter (fun j => decide (j ∈ Tids))).map (keyOf p0.heap) := by
+    rw [List.filter_map, List.map_map]
+    apply List.map_congr_left
+    intro x hx
+    obtain ⟨hxv, hxT⟩ := List.mem_filter.1 hx
+    have hin : x.1 ∈ Tids := by simpa using hxT
+    obtain ⟨e, he, _, hej⟩ := (hTmem x.1).1 hin
+    have hlt : x.1 < p0.heap.length := hej ▸ hp.bound e.2 (mem_ids_of_mem he)
+    exact (hkeys x hxv).2.1 hlt
+  have h3 : Tids.map (keyOf p0.heap) = (AMap.keys p0.dict).filter T := by
+    simp only [Tids, AMap.keys, List.map_map]
+    rw [List.filter_map]
+    apply List.map_congr_left
+    intro e he
+    exact hp.keyOk e (List.mem_filter.1 he).1
+  show (vis.map (·.2.1)).filter T = (AMap.keys p0.dict).reverse.filter T
+  rw [h1, h2, hidfilter, List.map_reverse, h3, List.filter_reverse]
+
 end PMap
 end Hive.OMap
